@@ -630,7 +630,12 @@ class Connection(ExportImport):
 
             # if we write an object, we don't want to check if it was read
             # while current.  This is a convenient choke point to do this.
-            self._readCurrent.pop(oid, None)
+            # (Only when writing to the real storage: what is written into
+            # a savepoint's storage can still be rolled back, after which
+            # the object is not written at all.  _commit_savepoint does the
+            # same when it copies the savepoint's records.)
+            if self._storage is self._normal_storage:
+                self._readCurrent.pop(oid, None)
             if s:
                 # savepoint
                 obj._p_changed = 0  # transition from changed to up-to-date
